@@ -13,6 +13,9 @@ META = {
     "not_decided": "termination of synchronize_rcu() itself (a liveness property over all schedules)",
 }
 
+META["explanation"] += " " + 'Also: whole-library lock-order graph per flavor joined with liburcu-cds through resolved function pointers (acyclic, documented edges present), no thread joined while holding a lock its body takes, no futex sleeper holding a lock its waker needs, and announce ≺ re-scan ≺ sleep on every updater sleep path.'
+META["technique"] = 'static analysis: store-buffering pairing rules, wait-loop shape rules, may/must locksets with interprocedural lock-order graph (cycle detection, join-under-lock, sleeper/waker lock conflicts) over normalised LLVM IR'
+
 
 def dom_atoms(f, inst):
     """atoms of all conditional edges that dominate inst"""
